@@ -13,11 +13,15 @@ LEVEL_TEXT = (
     "is overwritten or left behind before it has flowed into the result or the returned leftover (liveness of chunks); "
     "the single recv site retries EINTR and nothing else; no decision depends on the receive size; the end-token search "
     "of the segment reader sees all unconsumed bytes (accumulate-then-search, offset bounded by the token length); the "
-    "value reader applies no content-dependent operation to payload bytes. The byte arithmetic of _readvalue/_readline "
-    "(counting across pieces, the CR/LF straddle) and equality of results over all 2^(n-1) segmentations need numeric "
-    "loop invariants and are not decided."
+    "value reader applies no content-dependent operation to payload bytes. Segmentation rows (R6): each reader's syntax "
+    "tree interpreted over exact byte strings for every way a short reply stream can be cut into pieces and every split "
+    "between leftover and pieces (about 30 000 rows: every string over {a, CR, LF} up to 4-5 bytes for the line reader, "
+    "every content of sized values up to 2-3 bytes with tails and truncations, seven end tokens with partial-token "
+    "bodies): same result and leftover, no piece asked for beyond the completing one, hang-up raises. Streams longer "
+    "than those, sizes around the receive size, and the composition of readers inside the exchange loops rest on the "
+    "liveness rules, not on rows."
 )
-TRUSTED = ["CPython ast", "pmcsa/paths.py", "chunk-liveness transfer functions in pmcsa/rules_C03.py"]
+TRUSTED = ["CPython ast", "pmcsa/paths.py", "chunk-liveness transfer functions in pmcsa/rules_C03.py", "exact transformers for bytes slicing / find / join / len in pmcsa/seghist.py and pmcsa/colls.py (Python's own operations on constants)"]
 
 Chunk = namedtuple("Chunk", "status")  # fresh / saved / empty / split
 Part = namedtuple("Part", "owner part")  # a piece of the chunk held by variable `owner`, cut off by partition(): 'prefix' / 'suffix'
